@@ -91,6 +91,22 @@ theorem limit_rejects_over (zeroEOF : Bool) (max l : Nat) (rest : Bytes) (hl : m
     simp only [c0, c1, ↓reduceIte]
   exact ⟨hsz, by unfold ldRead; rw [hsz]⟩
 
+/-- (2') The same at the level of `ReadHeader`, the first thing every entry point does: a CARv1 header
+    whose encoded body is EXACTLY `MaxAllowedHeaderSize` bytes is accepted (the length prefix does not
+    count against the limit) … -/
+theorem header_accepted_at_limit (h : CarHeader) (hwf : h.wf) (h63 : (encodeHeaderBody h).length < 2 ^ 63)
+    (rest : Bytes) :
+    readHeader (encodeHeaderBody h).length (encodeHeader h ++ rest) = .ok (h, rest) :=
+  readHeader_encode _ h rest hwf (Nat.le_refl _) h63
+
+/-- … and one byte more is refused with the header-too-large error, whatever follows. -/
+theorem header_refused_over_limit (maxHeader : Nat) (h : CarHeader) (rest : Bytes)
+    (hl : maxHeader < (encodeHeaderBody h).length) (h63 : (encodeHeaderBody h).length < 2 ^ 63) :
+    readHeader maxHeader (encodeHeader h ++ rest) = .error .headerTooLarge := by
+  unfold readHeader encodeHeader
+  simp only [List.append_assoc]
+  rw [(limit_rejects_over false maxHeader _ (encodeHeaderBody h ++ rest) hl h63).2]
+
 /-- (3) Nothing larger than the limit is ever buffered, on any input: a section (or header) that
     `LdRead` returns is at most `max` bytes long and was entirely present in the input. -/
 theorem buffered_within_limit (zeroEOF : Bool) (max : Nat) (w sec rest : Bytes)
